@@ -284,3 +284,119 @@ def validate_raw_traces(results, specs, chunk=300):
             flush()
     flush()
     return bad, n_tr, n_ev, states
+
+
+# ------------------------------------------------------------------ Lookup.tla action-level traces
+
+def project_lookup(res, case_spec, scratch_prefix=None):
+    """relevant syscalls of an emulated resolve -> TraceLookup events"""
+    cid = str(res.get("id"))
+    calls = case_spec.get("calls", [])
+    out = [snap_event("init", cid, res["init"])]
+    results = (res.get("out") or [{}])[0].get("results") or []
+    cur = None
+    for e in res.get("events", []):
+        if e["ev"] == "mark":
+            tag = e["tag"]
+            if tag.startswith("BEGIN "):
+                cur = int(tag.split()[1])
+                b = blank("begin", cid)
+                b["body"] = (calls[cur].get("path") or "").split("/")
+                b["flag"] = "nofollow" if calls[cur].get("nofollow") else ""
+                out.append(b)
+            elif tag == "END" and cur is not None:
+                en = blank("end", cid)
+                r = results[cur] if cur < len(results) else {}
+                en["ret"] = 0 if r.get("ok") else -1
+                en["rid"] = r.get("id") or 0
+                out.append(en)
+                cur = None
+            continue
+        if e["ev"] == "att":
+            a = project_fs(dict(res, events=[e], out=[]), dict(calls=[]))
+            out += [x for x in a if x["ev"] == "att"]
+            continue
+        if e["ev"] != "sys" or cur is None or not e.get("rel"):
+            continue
+        s = blank("sys", cid)
+        s["ret"] = e.get("ret", 0)
+        nr = e["nr"]
+        if nr == "openat" and e.get("dfd_class") == "tree":
+            s.update(nr="openat", d1=e.get("dfd_id", 0), n1=e.get("path", ""), rid=e.get("r_id", 0))
+        elif nr == "newfstatat" and e.get("dfd_class") == "tree" and e.get("path") == "":
+            s.update(nr="fstat", d1=e.get("dfd_id", 0))
+        elif nr == "readlinkat" and e.get("dfd_class") == "tree":
+            s.update(nr="readlink", d1=e.get("dfd_id", 0), body=split_body(e.get("body")))
+        elif nr == "readlinkat" and e.get("dfd_class") == "proc":
+            txt = e.get("body") or ""
+            if not txt.startswith("/"):
+                continue      # an ordinary procfs symlink (thread-self -> <pid>/task/<tid>) walked by the emulated procfs resolver, not a d_path read
+            if txt.endswith(" (deleted)"):
+                comps = ["(deleted)"]
+            else:
+                # strip everything up to and including the scratch case directory (the root's parent)
+                m = re.search(r"/c\d+(/.*)?$", txt)
+                rel = (m.group(1) or "") if m else txt
+                comps = [c for c in rel.split("/") if c]
+            s.update(nr="dpath", body=comps)
+        else:
+            continue
+        out.append(s)
+    out.append(snap_event("snap", cid, res["final"]))
+    return out
+
+
+def validate_lookup_trace(res, case_spec):
+    """returns (accepted, consumed_lines, total_lines, first_unmatched_event)"""
+    evs = project_lookup(res, case_spec)
+    r = run_trace_tlc("MC_TraceLookup.tla", "TraceLookup.cfg", evs, timeout=300)
+    cons = r["consumed"]
+    if cons is None:
+        return None, 0, len(evs), None, r
+    ok = cons["diameter"] == cons["lines"] + 1 and not r["tlc"]["violated"]
+    first = evs[cons["diameter"] - 1] if 0 < cons["diameter"] <= len(evs) else None
+    return ok, cons["diameter"], cons["lines"], first, r
+
+
+def lookup_conformance(cases, results, max_cases=None, rnd=None):
+    """validate many emulated `resolve` traces against Lookup.tla in batched TLC runs; a rejected
+    trace (model drift) is recorded with its first unmatched event and skipped"""
+    todo = [(c, r) for c, r in zip(cases, results)
+            if not c.get("feat", {}).get("openat2", True) and len(c.get("calls", [])) == 1 and c["calls"][0].get("op") == "resolve"
+            and not c["calls"][0].get("nosym") and r.get("status") == "ok" and c.get("procs", 1) == 1]
+    if max_cases and len(todo) > max_cases:
+        if rnd:
+            rnd.shuffle(todo)
+        todo = todo[:max_cases]
+    accepted, drift, states, nev = 0, [], 0, 0
+    B = 150
+    i = 0
+    while i < len(todo):
+        chunk = todo[i:i + B]
+        spans, evs = [], []
+        for c, r in chunk:
+            e = project_lookup(r, c)
+            spans.append((len(evs), len(evs) + len(e), c))
+            evs += e
+        r = run_trace_tlc("MC_TraceLookup.tla", "TraceLookup.cfg", evs, timeout=600)
+        cons = r["consumed"]
+        states += r["tlc"]["distinct"]
+        if cons is None:
+            raise ToolError("TraceLookup run failed: %s" % r["tlc"]["out"][-1500:])
+        reached = cons["diameter"]            # furthest line index reached (1-based next line)
+        if r["tlc"]["violated"]:
+            drift.append(dict(case="?", what="invariant %s violated on the model state driven by the real trace" % r["tlc"]["violated"]))
+        if reached >= len(evs) + 1:
+            accepted += len(chunk)
+            nev += len(evs)
+            i += B
+            continue
+        # the case containing line `reached` is the drifting one
+        bad_idx = next((k for k, (a, b, c) in enumerate(spans) if a < reached <= b), len(spans) - 1)
+        a, b, c = spans[bad_idx]
+        accepted += bad_idx
+        nev += a
+        drift.append(dict(case=c["id"], call=c["calls"][0], sched=c.get("sched"), first_unmatched={k: v for k, v in evs[reached - 1].items() if v not in (0, "", [], False)},
+                          at_event=reached - a, of=b - a))
+        i += bad_idx + 1
+    return dict(validated=accepted + len(drift), accepted=accepted, drift=drift, states=states, events=nev)
